@@ -23,6 +23,7 @@ Surfaces == {"json", "print", "diagnostics", "gob", "wire", "errortext", "loglin
 Ops == {"login", "loginBadPassword", "getTicket", "getTicketUnknown", "serviceVerify", "decryptTicket", "krbPrivRoundTrip", "destroy",
         "keyLookupMiss",        \* key look-ups that fail although the keytab holds keys of that principal (other kvno / etype), directly and through the service
         "embedTicket",
+        "diagnoseMisfit",       \* Client.Diagnostics / Print of clients whose keytab does not fit their realm or configuration (another realm, another spelling, another etype, no KDC, no entries)
         "changePassword"}       \* Client.ChangePasswd against the password-change service, answered by the service or by an attacker (refusal, reflection of the request, forged and damaged replies)          \* a ticket that was decrypted in place is embedded in other messages (additional tickets, KDC replies, ticket sequences) and encoded
 CONSTANTS MaxOps
 VARIABLES holds, trail, out
@@ -41,6 +42,7 @@ Effect(op, h) ==
     [] op = "krbPrivRoundTrip" -> Add(h, "krbpriv", {"subkey"})
     [] op = "keyLookupMiss" -> Add(h, "error", {})                          \* the error names what was asked for, never what the keytab holds
     [] op = "embedTicket" -> Add(h, "ticket", {"svckey"})
+    [] op = "diagnoseMisfit" -> Add(h, "error", {})                         \* the complaints name what is missing, never what the keytab holds
     [] op = "changePassword" -> Add(Add(h, "credentials", {"password"}), "error", {})   \* the new password is a secret from the moment it is passed in
     [] op = "destroy" -> [h EXCEPT !["session"] = {}, !["cache"] = {}, !["credentials"] = {}]
 Do(op) == /\ Len(trail) < MaxOps /\ holds' = Effect(op, holds) /\ trail' = Append(trail, op) /\ UNCHANGED out
